@@ -10,7 +10,10 @@ import FGVerif.Model.C12
   * `o.adj`: every old row is the old row followed by one entry `(h, order 1)` for every `(h, a) ∈ new`
     with `a` = the row's atom (old bonds untouched); then one row `h ↦ [(a, order 1)]` per new atom
     (each hydrogen has exactly one bond, of order 1, to its heavy atom);
-  * the new ids are pairwise distinct and larger than every old id (hence not previously in use);
+  * the new ids are pairwise distinct and none of them is an id of `g` ("on an id not previously in use": the
+    statement does not say WHICH unused ids; that the model — like the code — takes ids above every old id is the
+    separate theorem `C12.fresh_ids` / `C12.new_ids_above` about the model, which C05's reading "ids above the
+    largest original id are added hydrogens" relies on);
   * every heavy atom `a` that received a hydrogen is a node of `g` whose symbol is neither `H` nor `R`
     and is tabulated in the *reference* table below;
   * every old atom `a` received exactly `expected g a` hydrogens, where for a tabulated non-H non-R symbol
@@ -91,7 +94,7 @@ structure SpecWith (g o : Graph) (new : List (Int × Int)) : Prop where
   nodes : o.nodes = extNodes g.nodes new
   adj : o.adj = extAdj g.adj new
   distinct : (new.map (·.1)).Nodup
-  fresh : ∀ p ∈ new, ∀ n ∈ g.nodeIds, n < p.1
+  fresh : ∀ p ∈ new, p.1 ∉ g.nodeIds
   heavy : ∀ p ∈ new, p.2 ∈ g.nodeIds ∧ heavyTab g p.2 = true
   count : ∀ a ∈ g.nodeIds, (new.filter (·.2 == a)).length = expected g a
 
@@ -114,7 +117,7 @@ def clauses (g o : Graph) (new : List (Int × Int)) : List (String × Bool) :=
     ("old_nodes_prefix_new_nodes_H", decide (o.nodes = extNodes g.nodes new)),
     ("old_bonds_prefix_one_single_bond_per_H", decide (o.adj = extAdj g.adj new)),
     ("new_ids_distinct", decide (new.map (·.1)).Nodup),
-    ("new_ids_fresh", decide (∀ p ∈ new, ∀ n ∈ g.nodeIds, n < p.1)),
+    ("new_ids_fresh", decide (∀ p ∈ new, p.1 ∉ g.nodeIds)),
     ("heavy_atom_tabulated_not_H_not_R", decide (∀ p ∈ new, p.2 ∈ g.nodeIds ∧ heavyTab g p.2 = true)),
     ("count", decide (∀ a ∈ g.nodeIds, (new.filter (·.2 == a)).length = expected g a)) ]
 
